@@ -332,9 +332,17 @@ def _fun_info(src, compiler=None, qasm=False):
     return info
 
 
+# scripts in which an earlier function object stays reachable under ANOTHER module-level name while its
+# def name is re-used: the entry point names what the script binds to that name at the end
+PRELUDES = {
+    ("sel",): "@qlassf\ndef sel(a: bool, b: bool) -> bool:\n    return a and not b\n\nfirst = sel\n\n",
+    ("pick", "aaa"): "@qlassf\ndef pick(x: bool, y: bool, z: bool) -> bool:\n    return x and y and z\n\nearly = pick\n\n",
+}
+
+
 def make_script(funcs):
     """Every other function is created with the string form name = qlassf(src) instead of the decorator."""
-    parts = []
+    parts = [PRELUDES.get(tuple(n for n, _ in funcs), "")]
     for i, (nme, src) in enumerate(funcs):
         if (len(nme) + i) % 3 == 1:
             parts.append(f"{nme} = qlassf({src!r})\n")
@@ -659,6 +667,9 @@ def gen_tasks(tier, seed):
         [("zeta", "def zeta(a: bool, b: bool, c: bool) -> bool:\n    return a or b or not c"),
          ("alpha", "def alpha(a: Qint[4], b: Qint[4]) -> bool:\n    return a > b")],
         [("solo", "def solo(a: bool, b: bool) -> bool:\n    return a or b")],
+        [("sel", "def sel(a: bool, b: bool) -> bool:\n    return a or b")],
+        [("pick", "def pick(x: bool, y: bool, z: bool) -> bool:\n    return x or (y and not z)"),
+         ("aaa", "def aaa(x: bool, y: bool) -> bool:\n    return x ^ y")],
     ]
     for si in range(n_scripts):
         if si < len(fixed):
